@@ -61,14 +61,20 @@ def module_source(curve):
     A("        match func {")
     A("            \"set_add\" => { let Q = pt(a, %d); P.set_add(&Q); }" % k)
     A("            \"set_sub\" => { let Q = pt(a, %d); P.set_sub(&Q); }" % k)
-    A("            \"op_add\" => { let Q = pt(a, %d); P = P + Q; }" % k)
-    A("            \"op_sub\" => { let Q = pt(a, %d); P = P - Q; }" % k)
-    A("            \"op_add_ref\" => { let Q = pt(a, %d); P = &P + &Q; }" % k)
-    A("            \"op_sub_ref\" => { let Q = pt(a, %d); P = &P - &Q; }" % k)
-    A("            \"op_add_assign\" => { let Q = pt(a, %d); P += Q; }" % k)
-    A("            \"op_sub_assign\" => { let Q = pt(a, %d); P -= &Q; }" % k)
-    A("            \"op_neg\" => { P = -P; }")
-    A("            \"op_mul\" => { P = P * n; }")
+    for op, sym in (("add", "+"), ("sub", "-")):
+        A("            \"op_%s_vv\" => { let Q = pt(a, %d); P = P %s Q; }" % (op, k, sym))
+        A("            \"op_%s_vr\" => { let Q = pt(a, %d); P = P %s &Q; }" % (op, k, sym))
+        A("            \"op_%s_rv\" => { let Q = pt(a, %d); P = &P %s Q; }" % (op, k, sym))
+        A("            \"op_%s_rr\" => { let Q = pt(a, %d); P = &P %s &Q; }" % (op, k, sym))
+        A("            \"op_%s_assign_v\" => { let Q = pt(a, %d); P %s= Q; }" % (op, k, sym))
+        A("            \"op_%s_assign_r\" => { let Q = pt(a, %d); P %s= &Q; }" % (op, k, sym))
+    A("            \"op_neg_v\" => { P = -P; }")
+    A("            \"op_neg_r\" => { P = -&P; }")
+    A("            \"op_mul_vn\" => { P = P * n; }")
+    A("            \"op_mul_rn\" => { P = &P * n; }")
+    A("            \"op_mul_nv\" => { P = n * P; }")
+    A("            \"op_mul_nr\" => { P = n * &P; }")
+    A("            \"op_mul_assign\" => { P *= n; }")
     A("            \"set_double\" => { P.set_double(); }")
     A("            \"double\" => { P = P.double(); }")
     A("            \"set_xdouble\" => { P.set_xdouble(n as u32); }")
